@@ -37,7 +37,7 @@ def norm_verr(v):
     if i >= 0:
         v = v[:i + len("wrong type")]
     segs = [x for x in v.split(": ") if not re.match(
-        r"^(validation error \(obj#:N\)|document catalog|catalog Pages|page tree|kid obj#N|node obj#N( Resources)?|page obj#N|page annotations|catalog AcroForm|AcroForm Fields(\[N\] obj#N)?|form field obj#N( Kids\\[N\\] obj#N)?)$", x)]
+        r"^(validation error \(obj#:N\)|document catalog|catalog Pages|page tree|kid obj#N|node obj#N( Resources)?|page obj#N|page annotations|catalog AcroForm|AcroForm Fields(\[N\] obj#N)?|form field obj#N( Kids\[N\] obj#N)?)$", x)]
     return ": ".join(segs)[:140]
 
 
